@@ -520,7 +520,7 @@ def shrink(case, rows):
 def run_e2e(ctx, ch: Channel, cases=None):
     rows, _, _ = L.registry()
     rng = ctx.rng("opt_e2e")
-    n = ctx.scale(400, 4000)
+    n = ctx.scale(400, 8000)
     cases = cases if cases is not None else [gen_case(rng, rows) for _ in range(n)]
     all_lines = []
     for case in cases:
